@@ -60,39 +60,80 @@ func c13(c *core.Ctx) {
 						c.Check(isC && b, key+":secure-arg", ac.Pos(), "in-process: constant true (no network)", "in-process channel passes a non-constant / false secure flag")
 						continue
 					}
-					// secure = (<url>.Scheme == "https")
-					var urlBase ssa.Value
-					okSec := false
-					if bo, ok := sec.(*ssa.BinOp); ok && bo.Op == token.EQL {
+					// secure = (<url>.Scheme == "https"), computed in place or by a helper of the package that returns
+					// the flag (and the URL string) for the URL it builds
+					schemeTest := func(v ssa.Value) (ssa.Value, bool) {
+						bo, ok := v.(*ssa.BinOp)
+						if !ok || bo.Op != token.EQL {
+							return nil, false
+						}
 						x, y := bo.X, bo.Y
 						if _, isS := core.ConstString(x); isS {
 							x, y = y, x
 						}
 						if s, isS := core.ConstString(y); isS && s == "https" {
 							if base, f, ok := core.FieldOf(x); ok && f == "Scheme" && strings.HasSuffix(core.QualNamedOf(base.Type()), "net/url.URL") {
-								okSec = true
-								urlBase = base
+								return base, true
+							}
+						}
+						return nil, false
+					}
+					isStringOf := func(v, base ssa.Value) bool {
+						return core.OriginIs(v, func(o ssa.Value) bool {
+							sc, _, ok := core.CallResult(o)
+							return ok && core.InfoOf(&sc.Call).Is("net/url.URL.String") && sc.Call.Args[0] == base
+						})
+					}
+					requestURLArgs := func() []ssa.Value {
+						var out []ssa.Value
+						for _, nr := range core.CallsIn(fn, func(_ *ssa.Call, ci core.CallInfo) bool {
+							return ci.Is("net/http.NewRequest") || ci.Is("net/http.NewRequestWithContext")
+						}) {
+							if core.InfoOf(&nr.Call).Is("net/http.NewRequestWithContext") {
+								out = append(out, nr.Call.Args[2])
+							} else {
+								out = append(out, nr.Call.Args[1])
+							}
+						}
+						return out
+					}
+					okSec, okURL := false, false
+					if urlBase, ok := schemeTest(sec); ok {
+						okSec = true
+						for _, uarg := range requestURLArgs() {
+							if isStringOf(uarg, urlBase) {
+								okURL = true
+							}
+						}
+					} else if hc, k, isCall := core.CallResult(sec); isCall {
+						if h := core.InfoOf(&hc.Call).Static; h != nil && h.Blocks != nil && core.PkgIs(h, pkgS) {
+							okSec = len(core.Returns(h)) > 0
+							okURL = okSec
+							for _, r := range core.Returns(h) {
+								base, ok := schemeTest(r.Results[k])
+								if !ok {
+									okSec, okURL = false, false
+									continue
+								}
+								// the request is built from the string this same helper call returned for that URL
+								found := false
+								for _, uarg := range requestURLArgs() {
+									for _, o := range core.Origins(uarg) {
+										uc, j, isC := core.CallResult(o)
+										if isC && uc == hc && j < len(r.Results) && isStringOf(r.Results[j], base) {
+											found = true
+										}
+									}
+								}
+								if !found {
+									okURL = false
+								}
 							}
 						}
 					}
 					c.Check(okSec, key+":secure-arg", ac.Pos(), "secure = URL.Scheme == \"https\"", "the secure flag handed to the credentials step is not the test URL.Scheme == \"https\" (a constant or another expression lets credentials cross plain http)")
 					// the URL tested is the one requested
 					if okSec {
-						okURL := false
-						for _, nr := range core.CallsIn(fn, func(_ *ssa.Call, ci core.CallInfo) bool {
-							return ci.Is("net/http.NewRequest") || ci.Is("net/http.NewRequestWithContext")
-						}) {
-							uarg := nr.Call.Args[1]
-							if core.InfoOf(&nr.Call).Is("net/http.NewRequestWithContext") {
-								uarg = nr.Call.Args[2]
-							}
-							if core.OriginIs(uarg, func(o ssa.Value) bool {
-								sc, _, ok := core.CallResult(o)
-								return ok && core.InfoOf(&sc.Call).Is("net/url.URL.String") && sc.Call.Args[0] == urlBase
-							}) {
-								okURL = true
-							}
-						}
 						c.Check(okURL, key+":secure-url-is-request-url", ac.Pos(), "the URL whose scheme is tested is the one the request is built from", "the scheme test is made on a URL other than the one the request is sent to")
 					}
 					// issuing calls
